@@ -314,7 +314,7 @@ class World:
                 eb = e.event_bus.name
             except BaseException as ex:
                 eb = 'raised:' + type(ex).__name__
-            w.rec('enter', bus, hname, w.name_of(e), eb, who)
+            w.rec('enter', bus, hname, w.name_of(e), eb, who, w.events.get(w.name_of(e)) is e)
             return who
 
         if kind in ('async', 'amethod', 'astatic'):
@@ -413,8 +413,9 @@ class World:
             await self._run('main', self.scn['main'])
             self.phase = 'actors'
             for t in tasks:
-                if self.scn.get('join_actors', True):
-                    await t
+                # join by polling a harness timer: an actor blocked in a stalled environment wait is simply left behind
+                while not t.done() and not self.loop.stalled and self.scn.get('join_actors', True):
+                    await self.loop.hsleep(0.25)
             self.phase = 'settle'
             await self.settle(self.scn.get('settle', 1.0))
             self.phase = 'final'
